@@ -59,6 +59,7 @@ class Sched(object):
         self.abort_reason = None
         self.done = threading.Event()
         self.clock_jumps = []        # (from, to, task, tag)
+        self.on_yield = None         # optional callback(sched, task, tag) at every yield point (invariant-at-a-hook monitors)
         self.on_clock_jump = None    # optional callback(sched, task) evaluated before time advances (lost wake-up detector)
         self.pct_changes = sorted(self.rng.randrange(1, 400) for _ in range(pct_depth)) if policy == "pct" else []
         self.time = SimClock(self)
@@ -242,6 +243,8 @@ class Sched(object):
     def _account(self, cur, tag):
         self.steps += 1
         cur.yields += 1
+        if self.on_yield is not None:
+            self.on_yield(self, cur, tag)
         if self.record_census:
             self.census.append((cur.name, cur.yields, tag))
         d = self.script.get((cur.name, cur.yields))
@@ -412,6 +415,13 @@ class SimLock(object):
         self.release()
 
 
+class _Ticket(object):
+    __slots__ = ("notified",)
+
+    def __init__(self):
+        self.notified = False
+
+
 class SimCondition(object):
     """threading.Condition look-alike (own lock, wait/notify/notify_all)"""
 
@@ -436,16 +446,15 @@ class SimCondition(object):
         self.lock.release()
 
     def wait(self, timeout=None):
-        ticket = [False]
+        ticket = _Ticket()
         self.waiters.append(ticket)
         self.lock.release()
         try:
-            self.sched.block(lambda: ticket[0], timeout, ("cond-wait", self.name))
+            self.sched.block(lambda: ticket.notified, timeout, ("cond-wait", self.name))
         finally:
-            if ticket in self.waiters:
-                self.waiters.remove(ticket)
+            self.waiters = [t for t in self.waiters if t is not ticket]      # by identity
             self.lock.acquire()
-        return ticket[0]
+        return ticket.notified
 
     def wait_for(self, predicate, timeout=None):
         end = None if timeout is None else self.sched.now + timeout
@@ -459,13 +468,13 @@ class SimCondition(object):
         return r
 
     def notify(self, n=1):
-        for t in self.waiters[:n]:
-            t[0] = True
+        for t in [t for t in self.waiters if not t.notified][:n]:
+            t.notified = True
         self.notifications += 1
 
     def notify_all(self):
         for t in self.waiters:
-            t[0] = True
+            t.notified = True
         self.notifications += 1
 
 
